@@ -521,6 +521,10 @@ pub struct RunSpec {
     pub case_limit_s: u64,
     /// properties whose statement includes termination report such a case as a violation (sig hang:<section>); others as inconclusive
     pub hang_is_violation: bool,
+    /// worker processes of another engine that speaks the same protocol (the shuttle engine): (executable, number of workers)
+    pub foreign_workers: Option<(PathBuf, u32)>,
+    /// number of native rwsv workers (0: only foreign workers)
+    pub native_workers: Option<u32>,
 }
 
 pub fn scratch_base() -> PathBuf {
@@ -571,21 +575,26 @@ pub fn run_parent(spec: RunSpec, regressions: bool) -> i32 {
     let regression_violations = merged.violations.len();
 
     let mut children = vec![];
-    for w in 0..spec.workers {
+    let native = spec.native_workers.unwrap_or(spec.workers);
+    let mut plan: Vec<(PathBuf, u32, u32, u32)> = vec![]; // (exe, global index, index within its engine, workers of its engine)
+    for w in 0..native { plan.push((exe.clone(), w, w, native)); }
+    if let Some((fexe, fw)) = &spec.foreign_workers { for k in 0..*fw { plan.push((fexe.clone(), native + k, k, *fw)); } }
+    for (cexe, w, local, total) in plan {
         let log = std::fs::File::create(dir.join(format!("w{}.log", w))).unwrap();
         let log2 = log.try_clone().unwrap();
-        let child = std::process::Command::new(&exe)
+        let child = std::process::Command::new(&cexe)
             .arg("child").arg(&spec.property)
             .arg("--tier").arg(spec.tier.name())
             .arg("--seed").arg(spec.seed.to_string())
             .arg("--worker").arg(w.to_string())
-            .arg("--workers").arg(spec.workers.to_string())
+            .arg("--workers").arg(total.to_string())
+            .arg("--local-index").arg(local.to_string())
             .arg("--dir").arg(&dir)
             .arg("--case-limit").arg(spec.case_limit_s.to_string())
             .stdout(log).stderr(log2)
             .stdin(std::process::Stdio::null())
-            .spawn().expect("spawn child");
-        children.push((w, child));
+            .spawn();
+        match child { Ok(c) => children.push((w, c)), Err(e) => infra.push(format!("cannot start worker {} ({}): {}", w, cexe.display(), e)) }
     }
     let deadline = Instant::now() + std::time::Duration::from_secs(spec.timeout_s);
     for (w, mut child) in children {
@@ -613,7 +622,8 @@ pub fn run_parent(spec: RunSpec, regressions: bool) -> i32 {
                 use std::os::unix::process::ExitStatusExt;
                 if let Some(sig) = st.signal() {
                     // abort of the worker process: attribute to the in-flight case
-                    let inflight: Value = InflightMap::read(&inflight_path).and_then(|b| serde_json::from_slice(&b).ok()).unwrap_or(Value::Null);
+                    let inflight: Value = InflightMap::read(&inflight_path).and_then(|b| serde_json::from_slice(&b).ok())
+                        .or_else(|| std::fs::read(dir.join(format!("w{}.inflight.json", w))).ok().and_then(|b| serde_json::from_slice(&b).ok())).unwrap_or(Value::Null);
                     if inflight.is_null() {
                         infra.push(format!("worker {} died with signal {} outside any case", w, sig));
                     } else {
@@ -729,7 +739,8 @@ fn merge(into: &mut WorkerResult, nontrivial: &mut HashSet<u64>, r: WorkerResult
     for (k, v) in r.notes { *into.notes.entry(k).or_insert(0) += v; }
     for (k, v) in r.sections { *into.sections.entry(k).or_insert(0) += v; }
     into.slowest_case_ms = into.slowest_case_ms.max(r.slowest_case_ms);
-    into.violations.extend(r.violations);
+    let known = KnownFindings::load();
+    for v in r.violations { if known.is_known(&v.property, &v.sig) { *into.known.entry(v.sig.clone()).or_insert(0) += 1; } else { into.violations.push(v); } }
     into.exhaustive_sections.extend(r.exhaustive_sections);
     into.inconclusive.extend(r.inconclusive);
 }
